@@ -63,7 +63,13 @@ def cases(rng, tier):
             out.append(shardprop.mk_case("crash@" + point, cfg, ntypes, nctx, ops))
         else:
             ops = shardprop.gen_history(rng, rng.range(5, 20), ntypes, nctx, p_flush=10, p_restart=15, p_obs=5, final_restart=True)
-            out.append(shardprop.mk_case("kill", cfg, ntypes, nctx, ops))
+            kind = "kill"
+            if i % 4 == 1:
+                # payloads with long texts of multi-byte characters at varying byte alignments (WAL lines of several
+                # hundred bytes): what is acknowledged must be in the log whatever its text looks like
+                cfg = dict(cfg); cfg["notes"] = True
+                kind = "kill+notes"
+            out.append(shardprop.mk_case(kind, cfg, ntypes, nctx, ops))
     return out
 
 
